@@ -8,6 +8,7 @@ CONSTANTS
   LongSizes = {40}
   LongRuns <- RunsQuick
   FullQueries = 41
+  PauseSizes = {40}
   DevSets <- AllDevSets
 SPECIFICATION MCSpec
 INVARIANTS TypeOK KFCoverInv DiffersInv RunAgrees RequestBoundInv
